@@ -632,6 +632,9 @@ func (w *worker[T, JobType]) pause() error {
 	switch s := w.status.Load(); s {
 	case running:
 		w.status.Store(paused)
+		// a WaitUntilFinished caller that parked while the worker was running waits for less now:
+		// let it re-evaluate, the event loop may never run again (Stop closes its channel)
+		w.releaseWaiters(w.curProcessing.Load())
 	case paused, stopped:
 		return nil
 	default:
